@@ -2,6 +2,8 @@
 # usage: reconfirm_failed.sh <worktree> <ID> : re-runs (with the change applied) the tests whose isolated re-run still failed in confirm.log
 wt="$1"; id="$2"; out="$wt/out/$id"; log="$out/confirm.log"
 cd "$wt" || exit 2
+# rustc 1.89 incremental compilation ICEs when patches are toggled back and forth
+export CARGO_INCREMENTAL=0; rm -rf "$wt/target/debug/incremental"
 NX="cargo nextest run --workspace --no-fail-fast --tool-config-file pb:/w/lib/nextest.toml --profile pb --test-threads 8 --offline"
 fails=$(awk '/^-- rerun /{t=$3} /Summary/ && /0 passed/ && t!=""{print t} /Summary/ && / 1 passed/{t=""}' "$log" | sort -u)
 # keep only those whose LAST summary was a failure
